@@ -338,16 +338,23 @@ def cpp_main(namespace_ident, protocols, ndjson=True, out_cpp=None):
         src += f'  if (proto == "{name}") {{\n'
         steps = cpp_steps_from_header(out_cpp, name) if out_cpp else None
         explicit = ""
+        prefilled = ""
         if steps:
             k = 0
             for step, ty, stream in steps:
                 if stream:
                     explicit += (f" {{ std::vector<{ty}> b; b.reserve(bs[{k}]); std::vector<{ty}> none; w.Write{step}(none); "
                                  f"while (r.Read{step}(b)) {{ w.Write{step}(b); w.Write{step}(none); }} w.End{step}(); }}")
+                    # VF_PREFILL: the vector handed to every batch read is not empty - it still holds some of what the previous call (of this or an
+                    # earlier step) left in it, cut or padded to a size between 0 and its capacity: what is read must not depend on it
+                    prefilled += (f" {{ std::vector<{ty}> b; b.reserve(bs[{k}]); size_t cap = b.capacity(); for (size_t it = 0;; it++) {{ b.resize((it * 7 + 3) % (cap + 1)); "
+                                  f"if (!r.Read{step}(b)) break; w.Write{step}(b); }} w.End{step}(); }}")
                     k += 1
                 else:
                     explicit += f" {{ {ty} v; r.Read{step}(v); w.Write{step}(v); }}"
-            src += f'    auto copy = [&](auto& r, auto& w) {{ if (std::getenv("VF_EMPTY_BATCHES")) {{{explicit} }} else r.CopyTo(w{args}); }};\n'
+                    prefilled += f" {{ {ty} v; r.Read{step}(v); w.Write{step}(v); }}"
+            src += (f'    auto copy = [&](auto& r, auto& w) {{ if (std::getenv("VF_EMPTY_BATCHES")) {{{explicit} }} else if (std::getenv("VF_PREFILL")) {{{prefilled} }} '
+                    f'else r.CopyTo(w{args}); }};\n')
         else:
             src += f'    auto copy = [&](auto& r, auto& w) {{ r.CopyTo(w{args}); }};\n'
         src += f'    if (infmt == "b" && outfmt == "b") return run<{ns}::binary::{name}Reader, {ns}::binary::{name}Writer>(in, out, copy);\n'
